@@ -1090,28 +1090,112 @@ Proof.
 Qed.
 Print Assumptions membership_change_safety_of_state_invariant_partial.
 
+(* ---------------------------------------------------------------- round 8: the four clauses across membership changes, over runs *)
+From BLB Require Import Raft.MemberStep Raft.MemberRun Raft.MemberRunExample.
+
+(* [FULL] election safety for ALL single-server membership changes, no premise on the configurations. Alphabet mstepS bm be: every event
+   of the core on any node (bootstrap, delivery of any soup message any number of times or never, ticks, proposals, AddNode and
+   RemoveNode exactly as the core accepts or refuses them, restarts), with or without a crash after any durable mutation,
+   restricted only by evS: one bootstrap membership bm with epoch be, no SnapshotDone, proposals carry no configuration entries,
+   no node is asked to add itself. From an initial state (distinct non-empty ids, followers, empty logs, no snapshot, no
+   configuration, commit index 0) with duplicate-free bm: two nodes recorded as leader of the same term are the same node *)
+Theorem election_safety_membership_change :
+  forall (bm : list nid) (be : N), NoDup bm ->
+  forall (a0 a : asys) (sched : list sys_event),
+    minitS a0 -> run asys sys_event (mstepS bm be) a0 sched a ->
+    forall t x y, In (t, x) (sy_hist (fst a)) -> In (t, y) (sy_hist (fst a)) -> x = y.
+Proof. exact election_safety_membership_change_sys. Qed.
+Print Assumptions election_safety_membership_change.
+
+(* [FULL] leader completeness across membership changes, same alphabet: whatever any node has committed at some moment of a run
+   (the first n_commit entries of its log) is, at any later moment, in the log of every leader of a greater term, whatever
+   configurations the two held and however the quorum sizes changed in between *)
+Theorem leader_completeness_membership_change :
+  forall (bm : list nid) (be : N), NoDup bm ->
+  forall (a0 a1 a2 : asys) (sched1 sched2 : list sys_event),
+    minitS a0 -> run asys sys_event (mstepS bm be) a0 sched1 a1 -> run asys sys_event (mstepS bm be) a1 sched2 a2 ->
+    forall x b,
+      In x (sy_nodes (fst a1)) -> In b (sy_nodes (fst a2)) -> n_role b = Leader -> p_term (n_p x) < p_term (n_p b) ->
+      (N.to_nat (n_commit x) <= length (p_log (n_p x)))%nat /\
+      firstn (N.to_nat (n_commit x)) (p_log (n_p b)) = firstn (N.to_nat (n_commit x)) (p_log (n_p x)).
+Proof. exact leader_completeness_membership_change_sys. Qed.
+Print Assumptions leader_completeness_membership_change.
+
+(* [FULL] log matching across membership changes, same alphabet: two entries of two nodes with the same index and term sit at the same
+   position and the logs are identical up to it *)
+Theorem log_matching_membership_change :
+  forall (bm : list nid) (be : N), NoDup bm ->
+  forall (a0 a : asys) (sched : list sys_event),
+    minitS a0 -> run asys sys_event (mstepS bm be) a0 sched a ->
+    forall x y k k' e e',
+      In x (sy_nodes (fst a)) -> In y (sy_nodes (fst a)) ->
+      nth_error (p_log (n_p x)) k = Some e -> nth_error (p_log (n_p y)) k' = Some e' ->
+      e_index e = e_index e' -> e_term e = e_term e' ->
+      k = k' /\ firstn (S k) (p_log (n_p x)) = firstn (S k) (p_log (n_p y)).
+Proof. exact log_matching_membership_change_sys. Qed.
+Print Assumptions log_matching_membership_change.
+
+(* [FULL] state machine safety across membership changes, same alphabet: entries handed to the state machine by any two nodes at any two
+   moments of a run with the same index are equal *)
+Theorem state_machine_safety_membership_change :
+  forall (bm : list nid) (be : N), NoDup bm ->
+  forall (a0 a1 a2 : asys) (sched1 sched2 : list sys_event),
+    minitS a0 -> run asys sys_event (mstepS bm be) a0 sched1 a1 -> run asys sys_event (mstepS bm be) a1 sched2 a2 ->
+    forall n1 n2 x y,
+      In n1 (sy_nodes (fst a1)) -> In n2 (sy_nodes (fst a2)) -> In x (n_commits n1) -> In y (n_commits n2) ->
+      e_index x = e_index y -> x = y.
+Proof. exact state_machine_safety_membership_change_sys. Qed.
+Print Assumptions state_machine_safety_membership_change.
+
+(* [FULL] the state invariant MS is preserved by every step of the alphabet: the touched node runs any event with any crash point,
+   under the three side conditions of evS *)
+Theorem membership_invariant_is_inductive :
+  forall bm be σ EC G A CL GR GL i s ev k crashed st s',
+    MS bm be (σ, EC) G A CL GR GL ->
+    get_node i (sy_nodes σ) = Some s ->
+    (forall m, ev = EDeliver m -> In m (sy_soup σ) /\ m_to m <> 0) ->
+    run_event_crash (settle s) ev k = Ret (crashed, st, s') ->
+    evres bm be ev -> evC ev -> noself s ev ->
+    MS bm be (step_sys σ s', EC ++ ec_of s s') (G ++ rec_of s s') (A ++ acks_of s' ++ rec_acks (rec_of s s'))
+       (CL ++ cl_of s s') (GR ++ gr_of G s s') (GL ++ gl_of G s s').
+Proof. exact MS_step_node. Qed.
+Print Assumptions membership_invariant_is_inductive.
+
+(* [FULL] non-vacuity, run A, add a third node to a two-node group and elect it leader, as a run of mstepS with bm = 1, 2 from an initial
+   state: 10 events to the state A10 (node 1 leader of term 2 under the members 1, 2, commit index 2) and 11 more to A21 (node 3
+   leader of term 3 under 1, 2, 3); election safety holds on the run with both leaders recorded, and leader completeness is
+   instantiated between the two moments *)
+Theorem membership_change_run_A_nonvacuous :
+  minitS A0 /\ NoDup [1; 2] /\
+  run asys sys_event (mstepS [1; 2] 5) A0 sched10 A10 /\ run asys sys_event (mstepS [1; 2] 5) A10 schedA2 A21 /\
+  map node_view (sy_nodes (fst A10)) = [(1, Leader, 2, [1; 2], 2, 2%nat); (2, Follower, 2, [1; 2], 0, 2%nat); (3, Follower, 0, [], 0, 0%nat)] /\
+  map node_view (sy_nodes (fst A21)) = [(1, Leader, 2, [1; 2; 3], 3, 3%nat); (2, Follower, 3, [1; 2; 3], 2, 3%nat); (3, Leader, 3, [1; 2; 3], 3, 3%nat)] /\
+  (forall t x y, In (t, x) (sy_hist (fst A21)) -> In (t, y) (sy_hist (fst A21)) -> x = y) /\
+  (In (2, 1) (sy_hist (fst A21)) /\ In (3, 3) (sy_hist (fst A21))) /\
+  (forall x b, In x (sy_nodes (fst A10)) -> In b (sy_nodes (fst A21)) -> n_role b = Leader -> p_term (n_p x) < p_term (n_p b) ->
+     firstn (N.to_nat (n_commit x)) (p_log (n_p b)) = firstn (N.to_nat (n_commit x)) (p_log (n_p x))).
+Proof. exact membership_change_run_A. Qed.
+Print Assumptions membership_change_run_A_nonvacuous.
+
+(* [FULL] non-vacuity, run B, remove a node and commit with the smaller quorum, as a run of mstepS: from A10 the leader accepts
+   RemoveNode 2, holds the single member 1 and commits index 3 alone (quorum 2 became quorum 1); election safety and state machine
+   safety are instantiated, and an entry of index 3 has been handed to the state machine *)
+Theorem membership_change_run_B_nonvacuous :
+  run asys sys_event (mstepS [1; 2] 5) A10 [(1, ERemoveNode 2, 0)] B11 /\
+  map node_view (sy_nodes (fst B11)) = [(1, Leader, 2, [1], 3, 3%nat); (2, Follower, 2, [1; 2], 0, 2%nat); (3, Follower, 0, [], 0, 0%nat)] /\
+  (forall t x y, In (t, x) (sy_hist (fst B11)) -> In (t, y) (sy_hist (fst B11)) -> x = y) /\
+  (forall n1 n2 x y, In n1 (sy_nodes (fst A10)) -> In n2 (sy_nodes (fst B11)) -> In x (n_commits n1) -> In y (n_commits n2) ->
+     e_index x = e_index y -> x = y) /\
+  existsb (fun s => existsb (fun y => e_index y =? 3) (n_commits s)) (sy_nodes (fst B11)) = true.
+Proof. exact membership_change_run_B. Qed.
+Print Assumptions membership_change_run_B_nonvacuous.
+
 (* NOT YET PROVED (statements kept visible; listed in props/C02.json not_yet_proved):
-   election_safety_membership_change / leader_completeness_membership_change / log_matching_membership_change /
-   state_machine_safety_membership_change as theorems over runs of astep.  Proved (rounds 6, 7): the argument itself
-   (leader_completeness_membership_change_partial, election_safety_membership_change_core_partial over the record minv;
-   membership_change_safety_of_state_invariant_partial over the state invariant MS) and these parts of "MS is inductive"
-   for the alphabet without snapshots: EM (round 6); (a) configuration_tracks_log; (d) leader_acks_come_from_members;
-   node-level summaries for AddNode / RemoveNode (step_summary_with_membership_change; Raft/LogMatchNodeQ.v with the
-   refined commit evidence); leader_sends_no_acknowledgement; the step lemmas of the re-based invariants ginvM, ackinvM,
-   voteinvM (each takes "one leader per term in the post-state history" as hypothesis).
-   OPEN, exactly — the remaining fields of MS at the touched node and the glue:
-   (1) the commit fields (clone of round 3's cminv with committed := cmr-based): commit index inside a committed prefix
-       for every node, leaderCommit of every AppEnts, peer-table justification; the no-truncation lemma uses
-       MS_leader_completeness of the pre-state; the leader case builds cmr from the refined lead_ev + (a) + (d), and
-       needs (d) in the form "ids of the peer table = members minus self after any same-term event of a leader,
-       whatever its final role" (a leader that steps down in leader_commit_up_to still sends its last heartbeats);
-       ms_lci then follows from the commit field and g_rec_node;
-   (2) ms_B, ms_F, ms_chain, ms_nd for the record a step adds: a newly elected leader's log is an lm-log (transfer
-       from records); a continuing leader appends either entries without configuration (Propose) or exactly one
-       stamped configuration entry (AddNode / RemoveNode accepted when settled) — needs the node-level log-shape lemma
-       p_log s' = L0, L0 ++ stamp es, or L0 ++ [configuration entry], crash variants included;
-   (3) one leader per term in the post-state history: the node elected in the step is winl over the pre-state ghost
-       lists (its votes are grants in GR or GL with casts), so election_safety_membership_change_core_partial applies;
-       a candidacy that wins in its first step needs CL, GR, CAST augmented by that candidacy (fields of minv re-checked);
-   (4) MS for initial states, the run-level theorems, non-vacuity runs, the combination with sstepS.
+   the combination of membership changes WITH snapshots: the four clauses hold for fixed membership with snapshots
+   (round 5, alphabet sstepS) and for arbitrary single-server membership changes without snapshots (round 8, alphabet
+   mstepS); one alphabet with both (SnapshotDone, InstallSnapshot traffic and AddNode / RemoveNode) is not proved: the
+   virtual-node view of round 5 would have to carry the configuration of the covered prefix (snapshot configuration) through
+   invariant (a), and the per-configuration commit invariant through an installed snapshot.  Side conditions of mstepS that are
+   not hypotheses of raft.go: proposals carry no configuration entries (raft.go proposes them only through AddNode /
+   RemoveNode), nobody asks a node to add itself, one bootstrap membership without duplicates.
    On the real code all four clauses are evaluated after every event by the monitors of the Go simulation. *)
